@@ -90,19 +90,46 @@ def with_alarm(seconds, fn):
 # ------------------------------------------------------------------------------------------ content
 
 
+MULTILINE_OPENERS = {
+    # multi-line constructs at the top of the file: truncation / deletion mutators can cut them open, which is where
+    # line-oriented analysers keep "inside a multi-line ..." state
+    "py": ["from os import (", "    path,", "    sep,", ")", "import re", ""],
+    "ts": ["import {", "    alpha,", "    beta,", '} from "./things";', ""],
+    "js": ["import {", "    alpha,", "    beta,", '} from "./things";', ""],
+    "rs": ["use std::{", "    fs,", "    io,", "};", ""],
+}
+
+
 def base_text(lang, fams, u):
     parts = [seeds.filler(lang, 700 + u)]
     allf = [f for f in seeds.families(lang)]
     for i, k in enumerate(fams):
         parts.append(seeds.seed(allf[k % len(allf)], lang, 500 + u * 5 + i, k))
-    return seeds.compose(lang, parts, header=(u % 2 == 0), gap=1)[0]
+    text = seeds.compose(lang, parts, header=(u % 2 == 0), gap=1)[0]
+    if u % 3 != 1:
+        text = "\n".join(MULTILINE_OPENERS[lang]) + "\n" + text
+    return text
+
+
+def _top_block(lang):
+    """The same run of module-level statements at the very top of every sibling of a language: whichever sibling is
+    analysed right after the offending file, its first lines are part of a cross-file finding."""
+    if lang == "py":
+        return [f"d69_{i} = transform_69_{i}(src_69, d69_x{i})" for i in range(4)] + [""]
+    return [f"const d69_{i} = transform_69_{i}(src_69, d69_x{i});" for i in range(4)] + [""]
 
 
 def sibling_files():
+    """Healthy siblings live in pkg/ (walked after the project root and before zz/), so an offending file can be
+    analysed before or after them; the siblings of a language share a duplicate run (cross-file findings)."""
+    py = "\n".join(_top_block("py"))
+    ts = "\n".join(_top_block("ts"))
     return {
-        "sib_a.py": seeds.compose("py", [seeds.seed("magic", "py", 61, 0), seeds.seed("nesting", "py", 62, 0), seeds.seed("print", "py", 63, 0)], header=False)[0],
-        "sib_b.ts": seeds.compose("ts", [seeds.seed("magic", "ts", 64, 0), seeds.seed("srp", "ts", 65, 0), seeds.seed("concat", "ts", 66, 0)], header=False)[0],
-        "sib_c.rs": seeds.compose("rs", [seeds.seed("unwrap", "rs", 67, 0), seeds.seed("clone", "rs", 68, 0)], header=False)[0],
+        "pkg/sib_a.py": py + seeds.compose("py", [seeds.seed("magic", "py", 61, 0), seeds.seed("nesting", "py", 62, 0), seeds.seed("print", "py", 63, 0)], header=False)[0],
+        "pkg/sib_b.ts": ts + seeds.compose("ts", [seeds.seed("magic", "ts", 64, 0), seeds.seed("srp", "ts", 65, 0), seeds.seed("concat", "ts", 66, 0)], header=False)[0],
+        "pkg/sib_c.rs": seeds.compose("rs", [seeds.seed("unwrap", "rs", 67, 0), seeds.seed("clone", "rs", 68, 0)], header=False)[0],
+        "pkg/sib_d.py": py + seeds.compose("py", [seeds.seed("lbyl", "py", 71, 0)], header=False)[0],
+        "pkg/sib_e.ts": ts + seeds.compose("ts", [seeds.seed("print", "ts", 72, 0)], header=False)[0],
     }
 
 
@@ -183,6 +210,19 @@ def mutate(data: bytes, muts) -> bytes:
         pos = int(a * n) if n else 0
         if kind == "truncate":
             data = data[:pos]
+        elif kind == "truncate-early":  # cut inside the first lines (imports, header, first signature)
+            data = data[: int(a * min(n, 120))]
+        elif kind == "truncate-at-open":  # cut right after the k-th opening bracket: the file ends inside a construct
+            opens = [i for i, ch in enumerate(data) if ch in b"([{"]
+            if opens:
+                data = data[: opens[int(a * (len(opens) - 1))] + 1 + int(b * 12)]
+        elif kind == "unclose":  # drop the first line that only closes a bracket
+            lines = data.split(b"\n")
+            for i, l in enumerate(lines):
+                if l.strip()[:1] in (b")", b"}", b"]"):
+                    del lines[i]
+                    break
+            data = b"\n".join(lines)
         elif kind == "delete":
             data = data[:pos] + data[pos + 1 + int(b * 40):]
         elif kind == "dup":
@@ -228,7 +268,7 @@ def mutate(data: bytes, muts) -> bytes:
     return data
 
 
-MUT_KINDS = ["truncate", "delete", "dup", "swap", "insert", "insert", "badutf8", "overwrite", "crlf", "mixed", "bom", "utf16", "delline", "dedent", "nonl"]
+MUT_KINDS = ["truncate", "truncate-early", "truncate-at-open", "unclose", "delete", "dup", "swap", "insert", "insert", "badutf8", "overwrite", "crlf", "mixed", "bom", "utf16", "delline", "dedent", "nonl"]
 
 
 def offender_bytes(case) -> bytes:
@@ -275,7 +315,9 @@ def _frame(e):
 
 
 def sib_ms(vs, root):
-    return Counter((v["rule_id"], os.path.basename(v["file_path"]), v["line"], v["column"], v["message"]) for v in vs
+    real = os.path.realpath(root)
+    return Counter((v["rule_id"], os.path.basename(v["file_path"]), v["line"], v["column"],
+                    v["message"].replace(real + "/", "").replace(root + "/", "")) for v in vs
                    if os.path.basename(v["file_path"]).startswith("sib_"))
 
 
@@ -285,7 +327,7 @@ def baseline():
             vs, sw, exc = lib_run(p.root)
             assert not sw and not exc, (sw, exc)
             _BASELINE["ms"] = sib_ms(vs, p.root)
-            assert sum(_BASELINE["ms"].values()) >= 6
+            assert sum(_BASELINE["ms"].values()) >= 10 and any(k[0].startswith("dry.") for k in _BASELINE["ms"]), _BASELINE["ms"]
     return _BASELINE["ms"]
 
 
@@ -315,8 +357,10 @@ def check(case) -> Case:
         labels.append(f"blow={case['blow']}")
     failures = []
     files = dict(sibling_files())
-    files["mid/" + name] = data
-    detail = {"file": "mid/" + name, "size": len(data), "head": data[:160].decode("utf-8", "replace")}
+    where = ["", "zz/", "pkg/"][case.get("rot", 0) % 3]  # analysed before the siblings, after them, or among them
+    files[where + name] = data
+    labels.append("offender-" + (["first", "last", "among"][case.get("rot", 0) % 3]))
+    detail = {"file": where + name, "size": len(data), "head": data[:160].decode("utf-8", "replace")}
     anomalous = False
     with Project(files, config=CONFIG) as p:
         t0 = time.time()
